@@ -875,7 +875,7 @@ TightDataPointStorageI* SZ_compress_uint32_4D_MDQ(uint32_t *oriData, size_t r1, 
 		index2D = 1;
 
 		pred1D = P1[index2D-1];
-		diff = curValue - pred1D;
+		diff = spaceFillingValue[index] - pred1D;
 
 		itvNum = llabs(diff)/realPrecision + 1;
 
@@ -889,7 +889,7 @@ TightDataPointStorageI* SZ_compress_uint32_4D_MDQ(uint32_t *oriData, size_t r1, 
 		{
 			type[index] = 0;
 
-			curValue = P1[index2D] = spaceFillingValue[0];
+			curValue = P1[index2D] = spaceFillingValue[index];
 			compressUInt32Value(curValue, minValue, byteSize, bytes);
 			memcpyDBA_Data(exactDataByteArray, bytes, byteSize);
 		}
@@ -915,7 +915,7 @@ TightDataPointStorageI* SZ_compress_uint32_4D_MDQ(uint32_t *oriData, size_t r1, 
 			{
 				type[index] = 0;
 
-				curValue = P1[index2D] = spaceFillingValue[0];
+				curValue = P1[index2D] = spaceFillingValue[index];
 				compressUInt32Value(curValue, minValue, byteSize, bytes);
 				memcpyDBA_Data(exactDataByteArray, bytes, byteSize);
 			}
@@ -943,7 +943,7 @@ TightDataPointStorageI* SZ_compress_uint32_4D_MDQ(uint32_t *oriData, size_t r1, 
 			{
 				type[index] = 0;
 
-				curValue = P1[index2D] = spaceFillingValue[0];
+				curValue = P1[index2D] = spaceFillingValue[index];
 				compressUInt32Value(curValue, minValue, byteSize, bytes);
 				memcpyDBA_Data(exactDataByteArray, bytes, byteSize);
 			}
@@ -970,7 +970,7 @@ TightDataPointStorageI* SZ_compress_uint32_4D_MDQ(uint32_t *oriData, size_t r1, 
 				{
 					type[index] = 0;
 
-					curValue = P1[index2D] = spaceFillingValue[0];
+					curValue = P1[index2D] = spaceFillingValue[index];
 					compressUInt32Value(curValue, minValue, byteSize, bytes);
 					memcpyDBA_Data(exactDataByteArray, bytes, byteSize);
 				}
@@ -1001,7 +1001,7 @@ TightDataPointStorageI* SZ_compress_uint32_4D_MDQ(uint32_t *oriData, size_t r1, 
 			{
 				type[index] = 0;
 
-				curValue = P0[index2D] = spaceFillingValue[0];
+				curValue = P0[index2D] = spaceFillingValue[index];
 				compressUInt32Value(curValue, minValue, byteSize, bytes);
 				memcpyDBA_Data(exactDataByteArray, bytes, byteSize);
 			}
@@ -1027,7 +1027,7 @@ TightDataPointStorageI* SZ_compress_uint32_4D_MDQ(uint32_t *oriData, size_t r1, 
 				{
 					type[index] = 0;
 
-					curValue = P0[index2D] = spaceFillingValue[0];
+					curValue = P0[index2D] = spaceFillingValue[index];
 					compressUInt32Value(curValue, minValue, byteSize, bytes);
 					memcpyDBA_Data(exactDataByteArray, bytes, byteSize);
 				}
@@ -1055,7 +1055,7 @@ TightDataPointStorageI* SZ_compress_uint32_4D_MDQ(uint32_t *oriData, size_t r1, 
 				{
 					type[index] = 0;
 
-					curValue = P0[index2D] = spaceFillingValue[0];
+					curValue = P0[index2D] = spaceFillingValue[index];
 					compressUInt32Value(curValue, minValue, byteSize, bytes);
 					memcpyDBA_Data(exactDataByteArray, bytes, byteSize);
 				}
@@ -1082,7 +1082,7 @@ TightDataPointStorageI* SZ_compress_uint32_4D_MDQ(uint32_t *oriData, size_t r1, 
 					{
 						type[index] = 0;
 
-						curValue = P0[index2D] = spaceFillingValue[0];
+						curValue = P0[index2D] = spaceFillingValue[index];
 						compressUInt32Value(curValue, minValue, byteSize, bytes);
 						memcpyDBA_Data(exactDataByteArray, bytes, byteSize);
 					}
